@@ -4,6 +4,7 @@
 use core::marker::PhantomData;
 use core::fmt::Debug;
 
+#[derive(Debug)]
 pub struct NutsError { pub code: u64 }
 pub struct DivergenceInfo { pub code: u64 }
 pub mod nuts { pub use super::SampleInfo; pub use super::NutsOptions; }
